@@ -333,6 +333,14 @@ static int insertNode(KSI_TreeBuilder *builder, KSI_TreeNode *node, int at) {
 
 		res = insertNode(builder, root, at + 1);
 		if (res != KSI_OK) {
+			/* Undo the join: the slot keeps its subtree and the caller keeps the
+			 * ownership of the node - only the joined root itself is discarded. */
+			builder->stack[at] = pSlot;
+			pSlot->parent = NULL;
+			node->parent = NULL;
+			root->leftChild = NULL;
+			root->rightChild = NULL;
+
 			KSI_pushError(builder->ctx, res, NULL);
 			goto cleanup;
 		}
